@@ -19,11 +19,19 @@ MAXPOOL = 12
 
 def views(f):
     """memoised views read through the object"""
-    try:
-        w = f.width
-    except Exception:  # noqa
-        w = -1
-    return {"s": enc.enc_text(f.s), "n": len(f), "w": w, "str": enc.enc_text(str(f)), "repr": enc.enc_text(repr(f))}
+    def guarded(fn, bad):
+        # a view that raises is an observation too (it never equals a freshly computed one)
+        try:
+            return fn()
+        except Exception as e:  # noqa
+            return bad(e)
+    w = guarded(lambda: f.width, lambda e: -1)
+    if not isinstance(w, int) or w < -1:
+        w = -2 if isinstance(w, int) else -3
+    return {"s": guarded(lambda: enc.enc_text(f.s), lambda e: enc.enc_text("<raised %s>" % enc.exc_name(e))),
+            "n": guarded(lambda: len(f), lambda e: -1), "w": w,
+            "str": guarded(lambda: enc.enc_text(str(f)), lambda e: enc.enc_text("<raised %s>" % enc.exc_name(e))),
+            "repr": guarded(lambda: enc.enc_text(repr(f)), lambda e: enc.enc_text("<raised %s>" % enc.exc_name(e)))}
 
 
 def fresh_views(f):
@@ -36,7 +44,7 @@ class C13(TraceCheck):
     pid = "C13"
     module = "PoolTrace"
     rule = ("straight-line programs over a pool seeded with 3 FmtStr values (multi-run, empty run, newline), operations: "
-            "+, str+, +str, *, slicing, splice, insert, append, join, copy_with_new_atts, new_with_atts_removed, copy, fmtstr() "
+            "+, str+, +str, * (counts -3..2), slicing, splice, insert, append, join, copy_with_new_atts, new_with_atts_removed, copy, fmtstr() "
             "re-wrapping, split, splitlines, ljust/rjust, copy_with_new_str, width_aware_slice, width_aware_splitlines, "
             "delegated upper/strip, linesplit; observations (str, len, s, width, repr through the object vs rebuilt from fresh "
             "runs) and in-place edit attempts interleaved at random positions. Programs come from TLC (Pool.tla: exhaustive "
@@ -101,11 +109,11 @@ class C13(TraceCheck):
             if rec["warmed"]:
                 # fill the operands' caches before the operation on every other step
                 for x in (fa, fb):
-                    str(x), len(x), x.s
-                    try:
-                        x.width
-                    except Exception:  # noqa
-                        pass
+                    for look in (str, len, lambda y: y.s, lambda y: y.width):
+                        try:
+                            look(x)
+                        except Exception:  # noqa - a view that raises is reported where the value was made
+                            pass
             try:
                 if op == "add":
                     res = fa + fb
@@ -242,6 +250,8 @@ class C13(TraceCheck):
             rec["pool"] = [enc.enc_fmtstr(f) for f in pool]
             rec["extras"] = [enc.enc_fmtstr(f) for f in extras]
             ev.append(rec)
+            if res is None and op in MODELLED and len(pool) < MAXPOOL:
+                break       # the specification's pool has a value here that the run does not: the history ends
         return {"seed": SEED, "ev": ev}
 
     def classes(self, tr):
